@@ -232,6 +232,16 @@ def apply_electric_inputs(sysm, objs, plant, inp):
     from feems.components_model.utility import IntegrationMethod
     n = inp["n"]
     dt = inp.get("dt")
+    # inp["alias"]: series with equal values are handed over as ONE ndarray object (a caller reusing e.g. its
+    # zero profile for several components); otherwise every array is fresh
+    cache = {}
+
+    def arr_of(values, dtype):
+        a = np.array(values, dtype=dtype)
+        if not inp.get("alias"):
+            return a
+        key = (np.dtype(dtype).str, a.tobytes())
+        return cache.setdefault(key, a)
     if dt is None:
         sysm.set_time_interval(np.full(n, 60.0), IntegrationMethod.sum_with_time)
     else:
@@ -241,17 +251,21 @@ def apply_electric_inputs(sysm, objs, plant, inp):
     for d, o, ci in zip(plant["comps"], objs, inp["comps"]):
         k = kind_of(d["cls"])
         if k == "Consumer":
-            arr = np.array([float(x) for x in ci["pin"]], dtype=float)
+            arr = arr_of([float(x) for x in ci["pin"]], float)
             how = ci.get("set", "input")
             if how == "from_output":
                 o.set_power_input_from_output(arr)
             else:
                 o.power_input = arr
         else:
-            o.status = np.array(ci["status"], dtype=bool)
-            o.load_sharing_mode = np.array([float(x) for x in ci["lsm"]], dtype=float)
+            o.status = arr_of(ci["status"], bool)
+            o.load_sharing_mode = arr_of([float(x) for x in ci["lsm"]], float)
             if k in ("PtiPto", "Storage"):
-                o.power_input = np.array([float(x) for x in ci["pin"]], dtype=float)
+                arr = arr_of([float(x) for x in ci["pin"]], float)
+                if ci.get("set") == "from_output":
+                    o.set_power_input_from_output(arr)
+                else:
+                    o.power_input = arr
 
 
 # ---------------------------------------------------------------------------------------------
@@ -360,6 +374,8 @@ def gen_electric_inputs(rng, plant, n=None, mixed_modes=True):
             else:
                 lsm = [Fraction(rng.randint(0, 1)) for _ in range(n)]
             pin = [Fraction(rng.randint(-32, 32), 32) * rated if l == 1 else Fraction(0) for l in lsm]
+            if rng.random() < 0.2:
+                pin = [Fraction(0)] * n        # held at zero whenever its power is given
             comps.append({"status": status, "lsm": lsm, "pin": pin})
     return {"n": n, "sts": sts, "comps": comps}
 
